@@ -172,13 +172,7 @@ Theorem builtin_leaves_good :
   (forall (cv : T) n idx b, Forall (fun i => (i < n)%nat) idx -> nconj cv = cv -> cv <> nzero ->
      leaf_good (LSampling (repeat cv n) idx b cv) /\ leaf_good (LWSum (repeat cv n) idx b cv) /\
      leaf_good (LFlatten (repeat cv n) idx cv) /\ leaf_good (LUnflatten (repeat cv n) idx cv)).
-Proof.
-  exact (conj (leaf_good_scaling OK) (conj (leaf_good_multiply OK) (conj (leaf_good_zero OK)
-        (conj (leaf_good_inner OK) (conj (leaf_good_mulfield OK) (conj (leaf_good_matrix_const OK)
-        (fun cv n idx b H1 H2 H3 => conj (leaf_good_sampling OK cv n idx b H1 H2 H3)
-           (conj (leaf_good_wsum OK cv n idx b H1 H2 H3)
-           (conj (leaf_good_flatten OK cv n idx H1 H2 H3) (leaf_good_unflatten OK cv n idx H1 H2 H3)))))))))).
-Qed.
+Proof. exact (leaves_good_all OK). Qed.
 End Builtins.
 Print Assumptions scaling_adjoint.
 Print Assumptions matrix_adjoint_partial.
@@ -200,6 +194,14 @@ Theorem partial_derivative_adjoint_partial : forall (c dx : R) (n : nat) (m : me
   leaf_ok (LPDeriv (repeat c n) (repeat c n) [n] 0 m p dx).
 Proof. exact leaf_ok_pderiv_1d. Qed.
 Print Assumptions partial_derivative_adjoint_partial.
+(* Gradient and Divergence on a 1-d discretisation (range / domain = space^1), same precondition *)
+Theorem gradient_divergence_1d_adjoint_partial : forall (c dx : R) (n : nat) (m : meth) (p : pmode),
+  dx <> 0%R -> (2 <= n)%nat ->
+  bnd_in_range n (boundary_tab p m) = true ->
+  bnd_in_range n (boundary_tab (adj_padding p) (adj_method m)) = true ->
+  leaf_ok (LGrad (repeat c n) (repeat c n) [n] m p [dx]) /\
+  leaf_ok (LDiv (repeat c n) (repeat c n) [n] m p [dx]).
+Proof. exact leaf_ok_grad_1d. Qed.
 
 (* Real <-> complex operators, realified (C^n = R^2n as re ++ im with weights w ++ w, so that
    [cinner] is the REAL PART of the complex inner product): RealPart/ImagPart of a real space,
@@ -297,4 +299,17 @@ Proof.
   - apply (leaf_good_multiply cring_ok_C); reflexivity.
   - apply (leaf_good_zero cring_ok_C).
   - repeat constructor.
+Qed.
+
+(* non-vacuity for the realified reading: a real <-> complex tree (repaired variant) satisfies the
+   premise of expr_adjoint_sound_real, so the identity holds for it in the real part *)
+Definition ex_mixed : oexpr R :=
+  Comp (Sum (LScal 2 (Leaf (LRealC [1; 1] true))) (LScal 3 (Leaf (LImagC [1; 1] true))))
+       (Leaf (LEmbedR [1; 1] 1 2 true)).
+Example ex_mixed_premises : wf leaf_ok ex_mixed.
+Proof.
+  cbn [ex_mixed wf]. repeat match goal with |- _ /\ _ => split end; try reflexivity.
+  - apply leaf_ok_realC_fixed.
+  - apply leaf_ok_imagC_fixed.
+  - apply leaf_ok_embedR_fixed.
 Qed.
